@@ -38,13 +38,14 @@ func init() {
 	register("C10", propMeta{
 		Level: "other",
 		Explanation: "R10a: in RevertTransaction the in-flight guard (take, kind referenceReverts, keyed by the id) precedes the store read of the transaction and is released only after the write returned (defer). R10b: the write is reached only on the false edge of a test of Transaction.Reverted of the transaction read for the same id. R10c: TxToScriptData's overdraft flag is the `force` parameter at the revert call site and the constant false everywhere else, and inside TxToScriptData the `allowing unbounded overdraft` text is written only under that flag. " +
-			"R10d: the REVERTED_TRANSACTION branch of the handle_log trigger calls revert_transaction with the JSON key of RevertedTransactionLogPayload.RevertedTransactionID, and revert_transaction sets reverted_at scoped by id and ledger; the revert log constructor stores the reverted id and the new transaction in the right fields. R10e: the revert executes under the account lock (R02a, same executor). R10f: the reverse postings passed to the script are Transaction.Reverse() of the transaction that was read.",
-		NotDecided:  "Postings.Reverse arithmetic and balance restoration (value-level).",
+			"R10d: the REVERTED_TRANSACTION branch of the handle_log trigger calls revert_transaction with the JSON key of RevertedTransactionLogPayload.RevertedTransactionID, and revert_transaction sets reverted_at scoped by id and ledger; the revert log constructor stores the reverted id and the new transaction in the right fields. R10e: the revert executes under the account lock (R02a, same executor). R10f: the reverse postings passed to the script are Transaction.Reverse() of the transaction that was read. R10g: in the Reverse functions of package ledger every reversed posting takes its fields from ONE original posting (endpoints swapped inside an element, or all fields stored from the same element).",
+		NotDecided:  "that the reversed list is in mirrored order, and balance restoration as a value-level fact.",
 		Trusted:     []string{"PL/pgSQL semantics of the scanned statements"},
 	}, func(c *Ctx) {
 		ruleR10ab(c)
 		ruleR10c(c)
 		ruleR10d(c)
+		ruleR10g(c)
 		ruleR02a(c, "R10e")
 	})
 }
